@@ -73,6 +73,70 @@ theorem filtered_cannot_save (e : Enforcer) (h : e.adapter.filtered = true) :
 theorem full_load_unfiltered (a : AdapterSt) (s : Store) (hp : a.plan = []) : (a.load s).1.filtered = false := by
   simp [AdapterSt.load, AdapterSt.nextFault, hp]
 
+/-- a stored rule that ends before the position of a non-empty filter value is left out (a missing field is a
+mismatch, not a wildcard) -/
+theorem short_rule_left_out (fp fg : List String) (rule : Rule) (i : Nat) (v : String) (hv : fp[i]? = some v) (hne : v ≠ "")
+    (hshort : rule.length ≤ i) : filterKeeps fp fg "p" rule = false := by
+  cases hk : filterKeeps fp fg "p" rule with
+  | false => rfl
+  | true =>
+    exfalso
+    have h := (filterKeeps_iff fp fg "p" rule).1 hk i v (by simpa using hv) hne
+    have hnone : rule[i]? = none := List.getElem?_eq_none hshort
+    rw [hnone] at h
+    cases h
+
+/-- the filter of a section applies to every policy type filed under it: the test never looks at the policy type name
+(`p2`, `p3` lines are filtered by `Filter.p` like `p` lines), and the record's section alone picks the filter -/
+theorem filter_by_section (recs : List (String × String × Rule)) (fp fg : List String) (pt : String) (rule : Rule) :
+    ("p", pt, rule) ∈ recs.filter (fun r => filterKeeps fp fg r.1 r.2.2) ↔
+      ("p", pt, rule) ∈ recs ∧ filterKeeps fp [] "p" rule = true := by
+  rw [List.mem_filter]
+  have : filterKeeps fp fg "p" rule = filterKeeps fp [] "p" rule := by unfold filterKeeps; simp
+  simp only [this]
+
+/-- whatever the tail of a load does (link build, restore after a failure), the adapter is the one the load left -/
+theorem finishLoad_adapter (e : Enforcer) (old : Store) (a : AdapterSt) (s : Store) (ok : Option Unit) :
+    (e.finishLoad old a s ok).1.adapter = a := by
+  unfold Enforcer.finishLoad
+  have hx : ({ e with adapter := a, store := s } : Enforcer).adapter = a := rfl
+  generalize ({ e with adapter := a, store := s } : Enforcer) = x at hx ⊢
+  have hb : ∀ y : Enforcer, y.buildRoleLinks.1.adapter = y.adapter := fun y => by unfold Enforcer.buildRoleLinks; rfl
+  have key : ∀ (e2 : Enforcer) (res : Option ErrKind), e2.adapter = a →
+      (match res with
+        | none => (e2, Res.unit)
+        | some k => ((if ({ e2 with store := old } : Enforcer).autoBuild then ({ e2 with store := old } : Enforcer).buildRoleLinks.1
+            else ({ e2 with store := old } : Enforcer)), Res.err k)).1.adapter = a := by
+    intro e2 res h2
+    cases res with
+    | none => exact h2
+    | some k =>
+      simp only []
+      split
+      · rw [hb]; exact h2
+      · exact h2
+  cases ok with
+  | none => exact key x (some .adapter) hx
+  | some u =>
+    by_cases hab : x.autoBuild = true
+    · simp only [hab, if_true]
+      cases hbr : x.buildRoleLinks with
+      | mk e2 res =>
+        have : e2.adapter = a := by
+          have h := hb x
+          rw [hbr] at h; exact h.trans hx
+        exact key e2 res this
+    · simp only [hab, if_false]
+      exact key x none hx
+
+/-- after a filtered load that left rules out, a full `load_policy` that the adapter serves makes the enforcer
+unfiltered again - whether or not the link build then succeeds - so `save_policy` is no longer refused on that ground -/
+theorem full_load_allows_save (e : Enforcer) (hp : e.adapter.plan = []) :
+    e.loadPolicy.1.adapter.filtered = false := by
+  unfold Enforcer.loadPolicy
+  rw [finishLoad_adapter]
+  exact full_load_unfiltered e.adapter e.store.clear hp
+
 /-! ### Non-vacuity (and the regression for the repaired memory / string loaders, F8) -/
 def demoStore : Store := ⟨[{ key := "p", tokens := [], arity := 0, policy := [] }], [{ key := "g", tokens := [], arity := 2, policy := [] }]⟩
 def demoMem : AdapterSt :=
